@@ -82,6 +82,8 @@ type BOpts struct {
 	ExtraEnv   []string
 	// Argv0/PreArgs: run as `git -C dir sizer ...` when set
 	ViaGit bool
+	// StdoutFull: connect stdout to /dev/full (every write fails with ENOSPC)
+	StdoutFull bool
 }
 
 // RunB executes the real binary for the scenario.
@@ -132,6 +134,12 @@ func RunB(sc *Scenario, site *Site, o BOpts) *Result {
 	cmd.Env = env
 	var so, se bytes.Buffer
 	cmd.Stdout, cmd.Stderr = &so, &se
+	if o.StdoutFull {
+		if f, err := os.OpenFile("/dev/full", os.O_WRONLY, 0); err == nil {
+			defer f.Close()
+			cmd.Stdout = f
+		}
+	}
 	cmd.SysProcAttr = &syscall.SysProcAttr{Setpgid: true}
 	cmd.Cancel = func() error { return syscall.Kill(-cmd.Process.Pid, syscall.SIGKILL) }
 	t0 := time.Now()
